@@ -30,6 +30,9 @@ Statements over `Model/Log.lean`; no bound on the number of workers, emissions, 
   generator.  Whichever way the loop ends, every worker whose result `executor.wait` has taken — in particular
   the failing one and everything collected in the same polling round — has had all its records delivered
   exactly once, in order; with `continue_on_failure=True` `runLoop` is `loop`.
+* `died_worker_records`, `died_worker_prefix_delivered` — a worker whose process dies hard after a prefix of
+  its `run()` has put every logger record of that prefix on the queue (and of its captured output exactly what
+  explicit flushes had handed over), and the parent has delivered them once it has noticed the death.
 An `example` shows that the drain *after* `executor.wait` is what `delivered_before_return` rests on: the
 same loop without it loses the records of the task that finishes last; another that the drain must come
 *before the first yield*: with the drain at the tail of the generator a raise loses the failing task's records.
@@ -154,6 +157,33 @@ theorem no_duplicates_any_exit (cof : Bool) (fails : Nat → Bool) (n : Nat) (re
 theorem runLoop_continue (fails : Nat → Bool) (s : St) (sched : List Round) :
     (runLoop true fails s sched).1 = loop s sched := runLoop_cof fails sched s
 
+/-! ## a worker that dies hard -/
+
+/-- what a worker that dies after `pre` has put on the log queue: every logger record of `pre`, in order
+(each is put synchronously when emitted), and of the captured output exactly a prefix — what explicit flushes
+had handed over; nothing twice -/
+theorem died_worker_records (pre : List Emit) :
+    logsOf (diedRecords pre) = emLogs pre ∧
+    (∃ rest, outBufs (diedRecords pre) ++ rest = nonBlank (emOuts pre)) ∧
+    (∃ rest, errBufs (diedRecords pre) ++ rest = nonBlank (emErrs pre)) := by
+  obtain ⟨h1, h2, h3⟩ := emitAll_conserve pre { out := [], err := [] }
+  simp only [List.nil_append] at h2 h3
+  exact ⟨h1, ⟨_, h2⟩, ⟨_, h3⟩⟩
+
+/-- … and the parent delivers them: for every mix of workers that finish (`workerRecords`) and workers that
+die hard after a prefix `ems w` of their `run()` (`diedRecords`), every schedule and either exit, once the
+parent has noticed the death (the future is done), every logger record the dead worker emitted has been
+delivered exactly once, in order -/
+theorem died_worker_prefix_delivered (cof : Bool) (fails : Nat → Bool) (n : Nat) (ems : Nat → List Emit)
+    (died : Nat → Bool) (sched : List Round) (w : Nat) (hd : died w = true)
+    (hw : w ∈ (runLoop cof fails (init n (fun v => if died v then diedRecords (ems v) else workerRecords (ems v)))
+            sched).1.consumed) :
+    logsOf (proj w (runLoop cof fails (init n (fun v => if died v then diedRecords (ems v) else workerRecords (ems v)))
+            sched).1.delivered) = emLogs (ems w) := by
+  rw [consumed_delivered cof fails n _ sched w hw]
+  simp only [hd, if_true]
+  exact (died_worker_records (ems w)).1
+
 /-! ## non-vacuity -/
 
 /-- `print("a")`, flush, a blank write, `print("b")`, final flush, a second flush -/
@@ -213,5 +243,14 @@ def runLoopTailDrain (fails : Nat → Bool) : St → List Round → St × Exit
 /-- … and the failing task's own records (and its round-mates') are lost -/
 example : (runLoopTailDrain (fun w => w == 1) (init 2 demoRecs) failSched).2 = .raised 1
     ∧ (runLoopTailDrain (fun w => w == 1) (init 2 demoRecs) failSched).1.delivered = [] := by decide
+
+/-- dies after two logger records, a flushed print and an unflushed one: the unflushed print is lost, the rest is there -/
+example : diedRecords [.log "a", .out "x", .flushOut, .log "b", .out "y"]
+    = [.logged "a", .stdout ["x"], .logged "b"] := by decide
+
+example : (runLoop true (fun _ => false)
+      (init 1 (fun _ => diedRecords [.log "a", .out "x", .flushOut, .log "b", .out "y"]))
+      [{ a := [], b := [.finish 0], c := [] }]).1.delivered
+    = [(0, .logged "a"), (0, .stdout ["x"]), (0, .logged "b")] := by decide
 
 end Lt.Props.C19
